@@ -500,6 +500,7 @@ func genCollisionProbes(c *Ctx) {
 		{"gen-collide-service-pair", "services Foo and NewFoo in one file", genFile{pkg: "coll.d", goPackage: "example.com/gen/coll/d;colld", services: []genService{{name: "Foo", methods: one}, {name: "NewFoo", methods: one}}}},
 		{"gen-collide-service-pair", "services Foo and UnimplementedFoo in one file", genFile{pkg: "coll.e", goPackage: "example.com/gen/coll/e;colle", services: []genService{{name: "Foo", methods: one}, {name: "UnimplementedFoo", methods: one}}}},
 		{"gen-collide-method-goname", "rpcs GetThing and get_thing in one service", genFile{pkg: "coll.f", goPackage: "example.com/gen/coll/f;collf", services: []genService{{name: "Things", methods: []genMethod{{name: "GetThing"}, {name: "get_thing"}}}}}},
+		{"gen-relative-go-package", "go_package \"./;pb\" (the relative form of many tutorials)", genFile{pkg: "coll.h", goPackage: "./;pb", localMsgs: true, services: []genService{{name: "Gateway", methods: one}}}},
 		{"gen-comment-bom", "a leading comment containing U+FEFF", genFile{pkg: "coll.g", goPackage: "example.com/gen/coll/g;collg", comments: true, comment: " Do \ufeff does things.\n", services: []genService{{name: "Svc", methods: one}}}},
 	}
 	gomod := "module gen.test\n\ngo 1.18\n\nrequire (\n\tgithub.com/bufbuild/connect-go v0.0.0\n\tgoogle.golang.org/protobuf v1.28.0\n)\n\nreplace github.com/bufbuild/connect-go => " + repoDir() + "\n"
